@@ -286,6 +286,9 @@ def finish(plan, tier, seed, t0, results, extra_cov=None, extra_viol=None, incon
         for m in inconc[:10]:
             print("INCONCLUSIVE %s: %s" % (prop, m))
         return 2
+    if not samples:
+        print("INCONCLUSIVE %s: the workload recorded no sample case" % prop)
+        return 2
     if len(nontrivial) < plan.min_nontrivial:
         print("INCONCLUSIVE %s: only %d distinct non-trivial cases" % (prop, len(nontrivial)))
         return 2
